@@ -499,10 +499,18 @@ func lastLines(s string, n int) string {
 
 var replaySeq = map[string]int{}
 
+// replayDir: where counterexample records are written (GOSYM_REPLAY_DIR for scratch runs)
+func replayDir() string {
+	if d := os.Getenv("GOSYM_REPLAY_DIR"); d != "" {
+		return d
+	}
+	return filepath.Join(verifDir, "replays")
+}
+
 func writeReplayFile(prop string, v *violation, nativeOut string) {
 	replaySeq[v.Cfg.Func]++
 	name := fmt.Sprintf("%s-%s-%d.json", prop, v.Cfg.Func, replaySeq[v.Cfg.Func])
-	p := filepath.Join(verifDir, "replays", name)
+	p := filepath.Join(replayDir(), name)
 	rf := replayFile{Property: prop, Harness: v.Cfg, Obligation: v.Obligation, Kind: v.Outcome.Kind, Msg: v.Outcome.Msg, Pos: v.Outcome.Pos, Func: v.Outcome.Func,
 		Stack: v.Outcome.Stack, Sched: v.Outcome.Sched, Model: v.Outcome.Model, Confirmed: v.Confirmed, NativeOut: nativeOut,
 		Howto: "cd /verif && ./check replay " + p}
